@@ -104,3 +104,21 @@ package routing
 //@ atcall PurgeConstraints: c.agentManager.$handedOver == old(c.agentManager.$handedOver) + 1
 //@ ensures c.agentManager.$handedOver == old(c.agentManager.$handedOver) + 1 ==> forall k Constraint :: has(bp.Constraints, k) ==> k == LocalEndpoint
 //@ ensures c.agentManager.$handedOver == old(c.agentManager.$handedOver) && (uint64(old(bp.bndl.PrimaryBlock.BundleControlFlags)) & 0x02) == 0 ==> has(bp.Constraints, Contraindicated)
+
+// ---- reception (C15 truthful reports, C13 routing memory, C05 refusal for cause) ----
+
+// A bundle whose id is already known (the descriptor loaded from the store carries constraints) is left alone: the
+// routing algorithm is not notified again (its memory of served peers and of the previous node must survive), nothing
+// is dispatched, nothing is reported. For a new bundle a reception report is sent only if the bundle asks for it, or
+// with reason "block unsupported" only while the bundle holds an unsupported block that asks for it; the bundle is
+// deleted at this stage only for an unsupported block that demands deletion.
+// govc:func (*Core).receive property C15 C13 C05
+//@ requires bp.Constraints != nil && c.routing != nil && bp.bndl != nil && blocksNonNil(*bp.bndl) && bp.Id == bp.bndl.ID()
+//@ let known0 := len(bp.Constraints) > 0
+//@ atcall NotifyNewBundle: !known0
+//@ atcall dispatching: !known0
+//@ atcall SendStatusReport: !known0 && arg2 == 0 && (arg3 == 0 || arg3 == 11)
+//@ atcall SendStatusReport: arg3 == 0 ==> (uint64(bp.bndl.PrimaryBlock.BundleControlFlags) & 0x004000) != 0
+//@ atcall SendStatusReport: arg3 == 11 ==> exists j int :: 0 <= j && j < len(bp.bndl.CanonicalBlocks) && !uf("ebmKnown", bool, bp.bndl.CanonicalBlocks[j].Value.BlockTypeCode()) && (uint64(bp.bndl.CanonicalBlocks[j].BlockControlFlags) & 0x02) != 0
+//@ atcall bundleDeletion: !known0 && arg2 == 11 && exists j int :: 0 <= j && j < len(bp.bndl.CanonicalBlocks) && !uf("ebmKnown", bool, bp.bndl.CanonicalBlocks[j].Value.BlockTypeCode()) && (uint64(bp.bndl.CanonicalBlocks[j].BlockControlFlags) & 0x04) != 0
+//@ loop 0 invariant 0 <= i + 1 && i < len(bp.bndl.CanonicalBlocks) && bp.bndl != nil && bp.Id == bp.bndl.ID()
